@@ -45,6 +45,9 @@ const ROOTS: [Root; 6] = [Root::NoTweak, Root::TweakNone, Root::TweakEmpty, Root
 #[derive(Serialize, Deserialize, Clone, Debug)]
 #[serde(tag = "part")]
 enum Case {
+    /// key material that went through dealer refresh / distributed refresh / repair (the crate's wrappers)
+    /// first: signatures must still be BIP-340 valid for the BIP-341 output key of the ORIGINAL internal key
+    Maintained { n: u16, t: u16, kind: String, root: Root, internal_odd: bool, output_odd: bool, seed: String },
     Session { n: u16, t: u16, src: KeySrc, signers: u32, root: Root, msg: usize, internal_odd: bool, output_odd: bool, r_odd: bool, seed: String },
     Faults { n: u16, t: u16, signers: u32, cheaters: u32, kind: super::c04::Kind, root: Root, internal_odd: bool, output_odd: bool, r_odd: bool, seed: String },
     /// single-signer entry point: BIP-340 validity for both key parities
@@ -110,6 +113,20 @@ impl Prop for C18 {
                                     out.push(serde_json::to_value(Case::Faults { n, t, signers: s, cheaters: ch, kind, root: root.clone(), internal_odd: io, output_odd: oo, r_odd: ro, seed: format!("s{seed}") }).unwrap());
                                 }
                             }
+                        }
+                    }
+                }
+            }
+        }
+        for (n, t) in [(3u16, 2u16), (4, 3)] {
+            for kind in ["refresh-dealer", "refresh-dkg", "repair"] {
+                for root in [Root::NoTweak, Root::TweakNone, Root::Tweak32] {
+                    for io in [false, true] {
+                        for oo in [false, true] {
+                            if root == Root::NoTweak && io != oo {
+                                continue;
+                            }
+                            out.push(serde_json::to_value(Case::Maintained { n, t, kind: kind.to_string(), root: root.clone(), internal_odd: io, output_odd: oo, seed: format!("s{seed}") }).unwrap());
                         }
                     }
                 }
@@ -320,6 +337,60 @@ fn run_case(c: &Case) -> Outcome {
                 }
             }
             o.class(format!("{root:?}"));
+        }
+        Case::Maintained { n, t, kind, root, internal_odd, output_odd, seed } => {
+            let ctx = format!("n={n} t={t} after {kind} root={root:?} internal_odd={internal_odd} output_odd={output_odd}");
+            let st0 = match find_group(*n, *t, KeySrc::Dealer, root, *internal_odd, *output_odd, seed) {
+                Ok(s) => s,
+                Err(e) => {
+                    o.eval(false);
+                    o.fail(format!("{tag}/setup"), format!("{ctx}: {e}"));
+                    return o;
+                }
+            };
+            let extra = std::cmp::min(*n, *t + 1) - *t;
+            let (kps, pkp, ids) = match super::c03::maintained::<C>(&st0.grp, kind, extra, seed) {
+                Ok(x) => x,
+                Err(e) => {
+                    o.eval(false);
+                    o.fail(format!("{tag}/{kind}-failed"), format!("{ctx}: {e}"));
+                    return o;
+                }
+            };
+            o.eval(true);
+            if pkp.verifying_key() != st0.grp.pkp.verifying_key() {
+                o.fail(format!("{tag}/maintenance-moved-the-group-key"), format!("{ctx}: the public key package after {kind} has another group key"));
+            }
+            for (id, kp) in &kps {
+                if kp.verifying_key() != st0.grp.pkp.verifying_key() {
+                    o.fail(format!("{tag}/maintenance-moved-the-group-key"), format!("{ctx}: key package of {} after {kind} has another group key", id_short::<C>(id)));
+                    break;
+                }
+            }
+            let st = Setup {
+                grp: std::sync::Arc::new(Grp { n: ids.len() as u16, t: *t, ids: ids.clone(), kps, pkp, shares: None, key: None, dkg_r1: None }),
+                internal: st0.internal.clone(),
+                out_x: st0.out_x,
+                out_odd: st0.out_odd,
+            };
+            // the last t members sign (with repair: includes the repaired participant)
+            let s: Vec<Id<C>> = ids[ids.len() - *t as usize..].to_vec();
+            let m = message(2);
+            match sign_all(&st, &s, root, &m, &format!("{seed}:maintained:{kind}")) {
+                Ok(run) => match run.sig.serialize() {
+                    Ok(sb) => {
+                        if bip340_verify_xonly(&st.out_x, &m, &sb) {
+                            o.count("libsecp_verified", 1);
+                            o.count("maintained_sessions_verified", 1);
+                        } else {
+                            o.fail(format!("{tag}/not-a-bip340-signature-for-the-output-key"), format!("{ctx}: libsecp256k1 rejects the signature under the BIP-341 output key of the original internal key"));
+                        }
+                    }
+                    Err(e) => o.fail(format!("{tag}/signature-unencodable"), format!("{ctx}: {e:?}")),
+                },
+                Err(e) => o.fail(format!("{tag}/honest-session-failed"), format!("{ctx}: {e}")),
+            }
+            o.class(format!("maintained-{kind}"));
         }
         Case::Faults { n, t, signers, cheaters, kind, root, internal_odd, output_odd, r_odd, seed } => {
             let ctx = format!("n={n} t={t} S={signers:b} cheaters={cheaters:b} kind={kind:?} root={root:?} internal_odd={internal_odd} output_odd={output_odd} r_odd={r_odd}");
